@@ -292,10 +292,15 @@ class Check:
             if k["key"] == key:
                 self.known_seen[key] = self.known_seen.get(key, 0) + 1
                 return
-        self.failures.append({"key": key, "what": what, "case": case, "observed": observed, "expected": expected})
+        self.n_failures = getattr(self, "n_failures", 0) + 1
+        if sum(1 for f in self.failures if f["key"] == key) < 3:   # keep a few examples per class
+            self.failures.append({"key": key, "what": what, "case": case, "observed": observed, "expected": expected})
 
     def corr_broken(self, name: str, case, impl, model):
         """Model and implementation disagree (not by itself a violation)."""
+        self.n_corr_broken = getattr(self, "n_corr_broken", 0) + 1
+        if sum(1 for b in self.broken if b["what"] == f"corr {name}") >= 3:
+            return
         self.broken.append({"what": f"corr {name}", "detail": {"case": case, "impl": impl, "model": model}})
 
     # ---- step 5
@@ -317,7 +322,7 @@ class Check:
                 h = hashlib.sha1(json.dumps(f, sort_keys=True, default=str).encode()).hexdigest()[:10]
                 rp = rdir / f"{self.prop}-{h}.json"
                 rp.write_text(json.dumps({"property": self.prop, "seed": self.seed, "tier": self.tier, **f,
-                                          "broken": [b["what"] for b in self.broken]}, indent=1, default=str))
+                                          "broken": sorted({b["what"] for b in self.broken})[:20]}, indent=1, default=str))
                 lines.append(f"VIOLATION property={self.prop} replay={rp}")
                 print(f"  failing input [{f['key']}]: {f['what']}", flush=True)
         elif self.broken:
@@ -350,8 +355,8 @@ class Check:
                 "rule": self.rule,
                 "samples": self.samples[:12],
                 "histogram": self.histogram,
-                "disagreements": len([b for b in self.broken if b["what"].startswith("corr")]),
-                "failing_inputs": len(self.failures),
+                "disagreements": getattr(self, "n_corr_broken", 0),
+                "failing_inputs": getattr(self, "n_failures", 0),
                 "known_findings_seen": self.known_seen,
                 "repo": str(REPO),
                 **self.extra,
@@ -365,7 +370,7 @@ class Check:
         for ln in lines:
             print(ln, flush=True)
         print(f"{self.prop} {self.tier}: obligations {n_ok}/{n_obl}, cases {self.evaluations} "
-              f"({len(self.distinct)} distinct non-trivial), failures {len(self.failures)}, "
+              f"({len(self.distinct)} distinct non-trivial), failures {getattr(self, 'n_failures', 0)}, "
               f"broken {len(self.broken)}, {wall:.1f}s", flush=True)
         sys.exit(code)
 
